@@ -411,8 +411,10 @@ def run_grader(ctx):
 
 
 def run(ctx):
-    run_raw(ctx)
-    run_strings(ctx)
+    # the operand pool is drawn from the shard's generator: thorough repeats the whole lattice with fresh values
+    for rep in range(ctx.pick(1, 12)):
+        run_raw(ctx)
+        run_strings(ctx)
     run_grader(ctx)
     if ctx.shard == 0:
         ctx.sample({'route': 'raw', 'op': '*', 'a': 'vector(3)', 'b': 'matrix(3,2)', 'expected': 'vector(2) = np.dot(a, b)'})
